@@ -316,6 +316,36 @@ def rule_tables(chk, rid, families=None, floor=300):
                                     name, rel, len(c), c[:16].hex(), len(others), others[0]))
 
 
+
+def rule_insert_ladders(chk, rid, families=None, floor=1000, also=None):
+    """contradiction rule over the element-insert ladders that assemble a vector from consecutive memory elements (nonce / IV bytes, tag
+    words): in a run of (v)pinsr instructions into one register from one base pointer, a rung whose (element index - source offset) differs
+    from that of both its neighbours, which agree with each other, inserts the element at the wrong place"""
+    from .. import insnscan
+    import collections
+    r = chk.rule(rid, 'in a ladder of (v)pinsr{b,w,d,q} xmm, [base + off], idx a rung keeps the index/offset relation of its two neighbours when those '
+                      'agree (a nonce / IV / tag byte is inserted where its neighbours say it belongs)', floor=floor)
+    for rel, lst in sorted(insnscan.inserts().items()):
+        fam = 'mgr' if '/mb_mgr_' in rel else family_of(rel, '')
+        if families is not None and fam not in families and not (also and re.search(also, rel)):
+            continue
+        g = collections.defaultdict(list)
+        for x in lst:
+            g[(x['fn'], x['mn'], x['dst'], x['base'])].append(x)
+        for k, v in sorted(g.items(), key=lambda kv: str(kv[0])):
+            if len(v) < 3:
+                continue
+            v.sort(key=lambda x: x['a'])
+            w = {'b': 1, 'w': 2, 'd': 4, 'q': 8}[k[1][-1]]
+            d = [x['idx'] * w - x['disp'] for x in v]
+            for i in range(1, len(v) - 1):
+                near = abs(v[i - 1]['idx'] - v[i + 1]['idx']) <= 4 and v[i + 1]['a'] - v[i - 1]['a'] < 64
+                ok = not (near and d[i - 1] == d[i + 1] != d[i])
+                r.check(ok, '%s:%s+%#x' % (rel, k[0], v[i]['a']), rel,
+                        '%s (%s): %s %s,[%s%+d],%d sits between rungs that insert element (offset%+d)/%d; this one inserts the element read at '
+                        'offset %d at index %d' % (k[0], rel, k[1], k[2], k[3], v[i]['disp'], v[i]['idx'], d[i - 1], w, v[i]['disp'], v[i]['idx']))
+
+
 UNREACH_BASELINE = _os.path.join(_os.path.dirname(DU_BASELINE), 'unreach_baseline.json')
 
 
